@@ -65,6 +65,7 @@ def run(ctx):
         cases.append((picked, tx, gap, script))
     lines = [tx.line(script=script) for (_, tx, _, script) in cases]
     res = rxlib.run_rx(lines)
+    ctx.coverage["known_finding_F9_witness_reproduces"] = rxlib.run_f9_witness(ctx, "C10")
     ok, panics, mism, dist, nontriv, samples = 0, 0, 0, {}, 0, []
     for (picked, tx, gap, script), line, r in zip(cases, lines, res):
         for k in picked:
@@ -93,7 +94,12 @@ def run(ctx):
         j = rxlib.oracle_justified(ev, tx.rate)
         if any(e["kind"] in ("burst", "som", "eom") for e in early):
             nontriv += 1
-        if c:
+        if rxlib.is_f9(c):
+            kd = [k for k in vlib.load_known_findings("C10") if k.get("class") == "F9"]
+            if kd and kd[0]["line"] not in ctx.known:
+                ctx.known.append(kd[0]["line"])
+            ok += 1
+        elif c:
             ctx.violation("property", "after hostile audio %s and a %.2f s gap the clean transmission is not decoded exactly: %s [%s]"
                           % (picked, gap, c, tx.describe()), {"input": line, "events": r["impl"][-3000:], "hostile": picked})
         elif j:
